@@ -73,6 +73,11 @@ def shard(shard, nshards, tier, seed):
 
 
 def replay(case):
+    if "flavoured" in case["hier"]:
+        h = gen.FlavouredHierarchy.get(case["hier"]["flavoured"])
+        prog = gen.Program(h.classes, case["methods"])
+        ref = RefOvld(case["methods"], StaticSem(h.classes))
+        return check_call(prog, ref, h, tuple(case["call"]["args"]), case["call"]["kwargs"], None)
     h = gen.Hierarchy.get([frozenset(int(b[1:]) for b in _anc(case["hier"], c)) for c in case["hier"]["classes"]])
     mspecs = case["methods"]
     prog = gen.Program(h.classes, mspecs)
